@@ -343,9 +343,11 @@ impl<S: Spec> Machine for LogMachine<S> {
             storages += 1;
             max_elems = max_elems.max(u);
         });
-        // every storage is a growable vector: doubling growth gives at most ceil(log2(bytes)) + 2 calls each
+        // every storage is a growable vector: geometric growth by any factor >= 1.5 needs at most
+        // 2 * ceil(log2(bytes)) + 8 calls per storage (doubling needs ceil(log2) + 2); linear growth exceeds
+        // this from a few hundred items on
         let log = (usize::BITS - (max_elems - 1).leading_zeros()) as u64;
-        let bound = storages as u64 * (log + 2);
+        let bound = storages as u64 * (2 * log + 8);
         if calls > bound {
             return Step::Violation(format!(
                 "{calls} allocator calls for {n} pushes; {storages} storages with at most {max_elems} bytes each allow {bound} (O(log n) per storage)"
